@@ -1,4 +1,6 @@
 import SJ.Proofs.Tables
+import SJ.Proofs.StreamDocs
+import SJ.Proofs.ParseIff
 import SJ.Proofs.BlockScan
 import SJ.Generated.Consts
 import SJ.Generated.Stage2Table
@@ -32,5 +34,31 @@ theorem C08_nd_states :
       [([10], [], some 2),
        ([91], ["reopenRoot", "push:retAddressStartConst", "write:["], some 8),
        ([123], ["reopenRoot", "push:retAddressStartConst", "write:{"], some 3)] := by decide
+
+
+open SJ.Layout SJ.ParseDefs SJ.TrimEdge in
+/-- **ParseND equals parsing each non-blank line** (specification side: `Spec.ndText` — split at LF, drop blank lines,
+    every remaining line must be a container text): accepted ⇒ `ParseND` succeeds and exposes exactly those documents,
+    in order, one per root; rejected (one bad line, two documents on a line, a document spanning lines, only blank
+    lines) ⇒ error. Blank lines, CRLF endings and a missing final newline are covered by `ndText` itself. -/
+theorem C08_parseND_accepts (cfg : Cfg) (input : Bytes) (he : EdgeOK input) (hsz : SizeOK (trimSpace input)) (vs : List Spec.JVal)
+    (h : Spec.ndText (jsonTrim input).toList = .accept (.arr vs)) :
+    ∃ pj, parseND cfg input = .ok pj ∧ WF pj (vs.map ofSpec) ∧ owalk pj = .ok ((vs.map ofSpec).map DecodeSound.toOVal) := by
+  obtain ⟨pj, _, hp, _, _, _, _, hwf, hw⟩ := SJ.ParseIff.parseND_accepts cfg input he hsz vs h
+  exact ⟨pj, hp, hwf, hw⟩
+
+open SJ.ParseDefs SJ.TrimEdge in
+theorem C08_parseND_rejects (cfg : Cfg) (input : Bytes) (he : EdgeOK input) (hsz : SizeOK (trimSpace input))
+    (h : Spec.ndText (jsonTrim input).toList = .reject) : parseND cfg input = .error .generic :=
+  SJ.ParseIff.parseND_rejects cfg input he hsz h
+
+open SJ.StreamDocs in
+/-- what `ndText` says, line by line: accepted with documents `vs` iff there is a non-blank line and the non-blank
+    lines, in order, are container texts with exactly those values; rejected iff there is no non-blank line or some
+    non-blank line is rejected -/
+theorem C08_ndText_lines (s : List UInt8) (vs : List Spec.JVal) :
+    (Spec.ndText s = .accept (.arr vs) ↔ lines s ≠ [] ∧ (lines s).map Spec.containerText = vs.map Spec.Verdict.accept) ∧
+    (Spec.ndText s = .reject ↔ lines s = [] ∨ ∃ l ∈ lines s, Spec.containerText l = .reject) :=
+  ⟨ndText_accept_iff s vs, ndText_reject_iff s⟩
 
 end SJ.Properties.C08
